@@ -383,6 +383,62 @@ def handleParseRt (tbl : TextTable) (vt module idx pows v back : String) : Optio
 
 def piBits (f : Fmt) : Nat := if f.p == 53 then 0x400921fb54442d18 else 0x40490fdb
 
+/-- the oracle of `handleDurFl` on the observed result `obs` (`m` is what the model prints; it only
+    decides whether a failure is the recorded finding F4 or a new one) -/
+def oracleDurFl (f : Fmt) (fac cs _cn v : Fl) (m obs : String) : Outcome :=
+  let secondBase := Fl.cmp fac cs == some 0
+  let t : Rat := v.toRat * fac.toRat / cs.toRat          -- the time in seconds, exactly
+  let two64 : Rat := ((2 ^ 64 : Nat) : Rat)
+  let u := uro f
+  if obs == "PANIC" then .prop "dur.panic" "Duration::try_from panicked"
+  else if v.isNan then (if obs == "overflow" then .ok else .prop "dur.class" "NaN must report Overflow")
+  else if Fl.lt v (Fl.zero f false) then (if obs == "neg" then .ok else .prop "dur.class" "a strictly negative time must report NegativeDuration")
+  else if obs == "neg" then .prop "dur.class" "NegativeDuration reported for a time that is not strictly negative"
+  else if !v.isFinite then (if obs == "overflow" then .ok else .prop "dur.class" "+inf must report Overflow")
+  else if t ≥ two64 * (1 + 4 * u) then (if obs == "overflow" then .ok else .prop "dur.class" "2^64 seconds or more must report Overflow")
+  else if obs == "overflow" then
+    (if t ≥ two64 * (1 - 4 * u) then .guard "within a few ulps of 2^64 s"
+     else if !secondBase && m == obs then .prop "dur.F4" "Overflow for a representable time stored in a non-second base unit"
+     else .prop "dur.class" "Overflow reported for a representable time")
+  else match obs.splitOn ":" with
+    | ["ok", s, n] => match s.toNat?, n.toNat? with
+      | some s, some n =>
+        let d : Rat := (s : Rat) + (n : Rat) / 1000000000
+        if ratAbs (d - t) ≤ 1 / 1000000000 + 4 * u * t then .ok
+        else if !secondBase && m == obs then
+          .prop "dur.F4" "time stored in a non-second base unit: Duration off by more than 1 ns + 4u (seconds and sub-second part are computed from differently rounded numbers)"
+        else .prop "dur.accuracy" "Duration is more than 1 ns + 4u away from the time's magnitude"
+      | _, _ => .prop "dur.class" "unreadable result"
+    | _ => .prop "dur.class" "unreadable result"
+
+/-- roundings that reach the result of `powi` by repeated squaring, *counted with multiplicity*: an early
+    rounding error is squared by every later squaring, so the relative error of `c^e` is `(|e| − 1)·u`, and
+    `(2|e| − 1)·u` for a negative exponent (the reciprocal's rounding is raised to the power as well) -/
+def powErr (e : Int) : Nat := if e < 0 then 2 * e.natAbs - 1 else e.natAbs - 1
+
+/-- the oracle of the `pow` / complex `xpow` lines: the observed `o` against the exact power `c ^ e`.
+    (As first written the tolerance counted the *operations* of the by-squaring loop, `2·log2|e| + 1`; the
+    soundness proof could not be closed and produced kernel-checked inputs with `|e| ≥ 32` on which the
+    model's own result was rejected — `Proofs/DurPowOracleSound.lean`. No run had used such an exponent.) -/
+def oraclePowFl (f : Fmt) (c : Fl) (e : Int) (o : Fl) : Outcome :=
+  if !(c.isFinite && o.isFinite) || c.isZero then .guard "non-finite"
+  else
+    let exact : Rat := c.toRat ^ e
+    let k : Rat := ((max 1 (powErr e) : Nat) : Rat)
+    if !(Fl.isNormal f o) then .guard "overflow/underflow"
+    else if ratAbs (o.toRat - exact) ≤ 2 * k * uro f * ratAbs exact then .ok
+    else .prop "pow.oracle" "a factor of the base-unit combination is not the base unit's coefficient raised to the quantity's exponent"
+
+/-- the tolerance as first written (kept for the witnesses of the false alarm it could raise) -/
+def oraclePowFlOld (f : Fmt) (c : Fl) (e : Int) (o : Fl) : Outcome :=
+  if !(c.isFinite && o.isFinite) || c.isZero then .guard "non-finite"
+  else
+    let exact : Rat := c.toRat ^ e
+    let k : Rat := (2 * (e.natAbs.log2 + 1) + 1 : Nat)
+    if !(Fl.isNormal f o) then .guard "overflow/underflow"
+    else if ratAbs (o.toRat - exact) ≤ 2 * k * uro f * ratAbs exact then .ok
+    else .prop "pow.oracle" "a factor of the base-unit combination is not the base unit's coefficient raised to the quantity's exponent"
+
 def handleDurFl (f : Fmt) (vt base pows cs cn v obs : String) : Option LineResult := do
   let fac := baseFactor (flS f) (← flList? f pows)
   let cs ← flOf? f cs
@@ -391,32 +447,20 @@ def handleDurFl (f : Fmt) (vt base pows cs cn v obs : String) : Option LineResul
   let m := (durOfTimeFl f fac cs cn v).show
   let mo : Outcome := if m == obs then .ok else .diff s!"dur.{vt}.model" s!"model={m} impl={obs}"
   -- oracle on the observed result
-  let secondBase := Fl.cmp fac cs == some 0
-  let t : Rat := v.toRat * fac.toRat / cs.toRat          -- the time in seconds, exactly
-  let two64 : Rat := ((2 ^ 64 : Nat) : Rat)
-  let u := uro f
-  let orc : Outcome :=
-    if obs == "PANIC" then .prop "dur.panic" "Duration::try_from panicked"
-    else if v.isNan then (if obs == "overflow" then .ok else .prop "dur.class" "NaN must report Overflow")
-    else if Fl.lt v (Fl.zero f false) then (if obs == "neg" then .ok else .prop "dur.class" "a strictly negative time must report NegativeDuration")
-    else if obs == "neg" then .prop "dur.class" "NegativeDuration reported for a time that is not strictly negative"
-    else if !v.isFinite then (if obs == "overflow" then .ok else .prop "dur.class" "+inf must report Overflow")
-    else if t ≥ two64 * (1 + 4 * u) then (if obs == "overflow" then .ok else .prop "dur.class" "2^64 seconds or more must report Overflow")
-    else if obs == "overflow" then
-      (if t ≥ two64 * (1 - 4 * u) then .guard "within a few ulps of 2^64 s"
-       else if !secondBase && m == obs then .prop "dur.F4" "Overflow for a representable time stored in a non-second base unit"
-       else .prop "dur.class" "Overflow reported for a representable time")
-    else match obs.splitOn ":" with
-      | ["ok", s, n] => match s.toNat?, n.toNat? with
-        | some s, some n =>
-          let d : Rat := (s : Rat) + (n : Rat) / 1000000000
-          if ratAbs (d - t) ≤ 1 / 1000000000 + 4 * u * t then .ok
-          else if !secondBase && m == obs then
-            .prop "dur.F4" "time stored in a non-second base unit: Duration off by more than 1 ns + 4u (seconds and sub-second part are computed from differently rounded numbers)"
-          else .prop "dur.accuracy" "Duration is more than 1 ns + 4u away from the time's magnitude"
-        | _, _ => .prop "dur.class" "unreadable result"
-      | _ => .prop "dur.class" "unreadable result"
+  let orc : Outcome := oracleDurFl f fac cs cn v m obs
   return ⟨[mo, orc], [s!"dur:{vt}:{base}", s!"dur:{(obs.splitOn ":").head!}"], true⟩
+
+/-- the oracle of `handleTimFl` on the observed result `obs` for the Duration `s` s + `n` ns -/
+def oracleTimFl (f : Fmt) (fac cs : Fl) (s n : Nat) (obs : String) : Outcome :=
+  if !obs.startsWith "ok:" then .prop "tim.class" "float storage can hold every Duration (possibly as infinity): no error expected"
+  else match flOf? f (obs.drop 3).toString with
+    | none => .prop "tim.class" "unreadable"
+    | some o =>
+      let d : Rat := (s : Rat) + (n : Rat) / 1000000000
+      if !o.isFinite then (if d * cs.toRat / fac.toRat > Fl.toRat (Fl.fin false (2 ^ f.p - 1) f.emax) / 2 then .guard "overflow/underflow" else .prop "tim.accuracy" "non-finite time")
+      else
+        let t := o.toRat * fac.toRat / cs.toRat
+        if ratAbs (t - d) ≤ 8 * uro f * d then .ok else .prop "tim.accuracy" "time is more than 8u away from seconds + nanoseconds"
 
 def handleTimFl (f : Fmt) (vt base pows cs cn secs nanos obs : String) : Option LineResult := do
   let fac := baseFactor (flS f) (← flList? f pows)
@@ -426,16 +470,7 @@ def handleTimFl (f : Fmt) (vt base pows cs cn secs nanos obs : String) : Option 
   let n ← nanos.toNat?
   let m := "ok:" ++ flHex f (timeOfDurFl f fac cs cn s n)
   let mo : Outcome := if m == obs then .ok else .diff s!"tim.{vt}.model" s!"model={m} impl={obs}"
-  let orc : Outcome :=
-    if !obs.startsWith "ok:" then .prop "tim.class" "float storage can hold every Duration (possibly as infinity): no error expected"
-    else match flOf? f (obs.drop 3).toString with
-      | none => .prop "tim.class" "unreadable"
-      | some o =>
-        let d : Rat := (s : Rat) + (n : Rat) / 1000000000
-        if !o.isFinite then (if d * cs.toRat / fac.toRat > Fl.toRat (Fl.fin false (2 ^ f.p - 1) f.emax) / 2 then .guard "overflow/underflow" else .prop "tim.accuracy" "non-finite time")
-        else
-          let t := o.toRat * fac.toRat / cs.toRat
-          if ratAbs (t - d) ≤ 8 * uro f * d then .ok else .prop "tim.accuracy" "time is more than 8u away from seconds + nanoseconds"
+  let orc : Outcome := oracleTimFl f fac cs s n obs
   return ⟨[mo, orc], [s!"tim:{vt}:{base}"], s != 0 || n != 0⟩
 
 /-- (bits, signed) of a fixed-width integer storage type; `none` for the arbitrary-precision ones -/
@@ -792,15 +827,7 @@ def handleLine (tbl : TextTable) (line : String) : Option LineResult :=
     let e ← parseInt? e
     let o ← flOf? f obs
     let m := flPowi f c e
-    let orc : Outcome :=
-      if !(c.isFinite && o.isFinite) || c.isZero then .guard "non-finite"
-      else
-        let exact : Rat := c.toRat ^ e
-        -- by-squaring needs at most 2·log2|e| + 1 roundings
-        let k : Rat := (2 * (e.natAbs.log2 + 1) + 1 : Nat)
-        if !(Fl.isNormal f o) then .guard "overflow/underflow"
-        else if ratAbs (o.toRat - exact) ≤ 2 * k * uro f * ratAbs exact then .ok
-        else .prop "pow.oracle" "a factor of the base-unit combination is not the base unit's coefficient raised to the quantity's exponent"
+    let orc : Outcome := oraclePowFl f c e o
     return ⟨[cmpFl f "pow.model" m o, orc], [s!"pow:{e}"], e != 0 && Fl.cmp c (Fl.one f) != some 0⟩
   | ["num", vt, a, toSi, fromSi, toK, fromK] =>
     -- C15: a bare number converts to and from a ratio unchanged, whatever the base units (same encoding back)
@@ -816,14 +843,7 @@ def handleLine (tbl : TextTable) (line : String) : Option LineResult :=
       let f := if vt == "complex32" then b32 else b64
       let c ← flOf? f coef
       let o ← flOf? f obs
-      let orc : Outcome :=
-        if !(c.isFinite && o.isFinite) || c.isZero then .guard "non-finite"
-        else
-          let exact : Rat := c.toRat ^ e
-          let k : Rat := (2 * (e.natAbs.log2 + 1) + 1 : Nat)
-          if !(Fl.isNormal f o) then .guard "overflow/underflow"
-          else if ratAbs (o.toRat - exact) ≤ 2 * k * uro f * ratAbs exact then .ok
-          else .prop "pow.oracle" "a factor of the base-unit combination is not the base unit's coefficient raised to the quantity's exponent"
+      let orc : Outcome := oraclePowFl f c e o
       return ⟨[orc], [s!"xpow:{e}"], e != 0 && Fl.cmp c (Fl.one f) != some 0⟩
     else
       if (numTy? vt).isNone then none
